@@ -4,12 +4,12 @@
 //! with caching for improved read performance on key-to-set relationships.
 
 use std::{
-    collections::{BinaryHeap, HashSet},
+    collections::{BinaryHeap, HashMap, HashSet},
     hash::Hash,
     ops::Not,
     sync::{
         Arc,
-        atomic::{AtomicUsize, Ordering},
+        atomic::{AtomicU64, AtomicUsize, Ordering},
     },
 };
 
@@ -85,6 +85,11 @@ enum Entry<C> {
 pub struct VersionedOperation<V> {
     op: Operation<V>,
     epoch: Epoch,
+
+    /// Issue order of the operation within its log; the heap is ordered by
+    /// epoch only, so readers use this to find the latest operation on an
+    /// element.
+    seq: u64,
 }
 
 impl<V> Eq for VersionedOperation<V> {}
@@ -120,6 +125,7 @@ enum ConcurrentLogMessage<V> {
 struct ConcurrentLog<V> {
     log: RwLock<BinaryHeap<VersionedOperation<V>>>,
     deferred_messages: SegQueue<ConcurrentLogMessage<V>>,
+    next_seq: AtomicU64,
 }
 
 impl<V: Eq + Hash + Clone> ConcurrentLog<V> {
@@ -127,6 +133,7 @@ impl<V: Eq + Hash + Clone> ConcurrentLog<V> {
         Self {
             log: RwLock::new(BinaryHeap::new()),
             deferred_messages: SegQueue::new(),
+            next_seq: AtomicU64::new(0),
         }
     }
 
@@ -177,21 +184,34 @@ impl<V: Eq + Hash + Clone> ConcurrentLog<V> {
         // fix any deferred messages
         Self::fix(&mut log, &self.deferred_messages);
 
+        // The store may already hold any epoch-prefix of the logged
+        // operations (committed, but not yet flushed from the log), and the
+        // heap is not iterated in issue order. Hence, for every element only
+        // the operation issued last decides (last writer wins); pairs of
+        // operations must not cancel each other.
+        let mut latest: HashMap<&V, (u64, bool), FxBuildHasher> =
+            HashMap::with_hasher(FxBuildHasher::default());
+
+        for op in log.iter() {
+            let (v, is_insert) = match &op.op {
+                Operation::Insert(v) => (v, true),
+                Operation::Remove(v) => (v, false),
+            };
+
+            let slot = latest.entry(v).or_insert((op.seq, is_insert));
+            if slot.0 <= op.seq {
+                *slot = (op.seq, is_insert);
+            }
+        }
+
         let mut added = HashSet::with_hasher(FxBuildHasher::default());
         let mut removed = HashSet::with_hasher(FxBuildHasher::default());
 
-        for op in log.iter() {
-            match &op.op {
-                Operation::Insert(v) => {
-                    if removed.remove(v).not() {
-                        added.insert(v.clone());
-                    }
-                }
-                Operation::Remove(v) => {
-                    if added.remove(v).not() {
-                        removed.insert(v.clone());
-                    }
-                }
+        for (v, (_, is_insert)) in latest {
+            if is_insert {
+                added.insert(v.clone());
+            } else {
+                removed.insert(v.clone());
             }
         }
 
@@ -533,8 +553,10 @@ impl<
 
         // apply the operation to the log
         {
+            let seq = log.next_seq.fetch_add(1, Ordering::SeqCst);
+
             log.apply_message(ConcurrentLogMessage::AppendOperation(
-                VersionedOperation { op: op.clone(), epoch },
+                VersionedOperation { op: op.clone(), epoch, seq },
             ));
         }
 
